@@ -347,8 +347,7 @@ class Server(base_server.BaseServer):
             return r
         if self.http_compression and \
                 len(r['response']) >= self.compression_threshold:
-            encodings = [e.split(';')[0].strip() for e in
-                         environ.get('HTTP_ACCEPT_ENCODING', '').split(',')]
+            encodings = self._accepted_encodings(environ)
             for encoding in encodings:
                 if encoding in self.compression_methods:
                     r['response'] = \
